@@ -3,7 +3,9 @@
 Enumerated: every configuration of the bounded alphabet (state count N, transition/observation
 truncation, transition/observation variance) x every observation sequence of length T x every
 latent sequence (N**T).  The library runs EAGERLY (the configuration keeps jax arrays in static
-fields, so it can neither be passed to nor closed over by `jax.jit`).
+fields, so it can neither be passed to nor closed over by `jax.jit`); for T >= 2 under
+`jax.disable_jit()` (scan/cond as Python loops: a plain eager call re-compiles every scan on every
+call, 0.5-2 s per call), cross-checked bit-for-bit against the plain eager mode.
 
 Oracle (numpy float64, brute force): the joint table  p(z, x) = pi0[z1] B[z1,x1] prod_t A[z_{t-1},z_t]
 B[z_t,x_t]  with A, B the row-softmax of the configuration's transition/observation tensors (the
